@@ -99,7 +99,9 @@ class UnrollPipeline_contract:
     """prologue + steady-state loop + epilogue execute each (stage, iteration) pair exactly once, in time slot
     stage + iteration, every slot closed by a barrier, and no iteration outside [0, trip count)"""
     target = "snaxc.transforms.pipeline.unroll_pipeline.UnrollPipeline.match_and_rewrite"
-    shapes = [dict(stages=S, loop=l, trips=t) for S in (2, 3, 4) for (l, t) in (("canonical", "enough"), ("canonical", "any"), ("general", "enough"))]
+    # lb = 0 and step = 1 are what ConstructPipeline guarantees (ConstructPipeline_contract); "enough": a constant upper
+    # bound, for which it also guarantees ub >= S - 1; "any": an upper bound only known at run time
+    shapes = [dict(stages=S, loop="canonical", trips=t) for S in (2, 3, 4) for t in ("enough", "any")]
     native = False
     total = True
     permissive = True
@@ -188,3 +190,109 @@ class UnrollPipeline_contract:
 
     def canary(sh, a, ret):
         check("canary: nothing is inserted before the loop", not any(e[0] == "insert_op" and e[2].kind == "before" and e[2].anchor is a[0]["loop"] for e in ret))
+
+
+# ------------------------------------------------------------------------------------------------------------------
+# ConstructPipeline: which loops are turned into a pipeline, and how the body is split
+# ------------------------------------------------------------------------------------------------------------------
+from xdsl.dialects import linalg, memref  # noqa: E402
+from xdsl.dialects.builtin import MemRefType, NoneAttr, StringAttr, i32  # noqa: E402
+
+import snaxc.transforms.pipeline.construct_pipeline as cp  # noqa: E402
+
+
+class IdxOp(Operation):
+    """an index computation of the loop body (neither dispatched nor a barrier)"""
+
+    def __init__(self, operands):
+        self._init_op(list(operands), [None], [IndexType()])
+
+
+def build_for(sh, sym):
+    """scf.for %i = lb to ub step st { %x = idx(%i); <stage ops separated by barriers>; yield } with constant or dynamic bounds"""
+    lbv, ubv, stv = sym.int("lb"), sym.int("ub"), sym.int("step")
+
+    def bound(kind, val):
+        if kind == "const":
+            return arith.ConstantOp.from_int_and_width(val, IndexType()).results[0]
+        return idx(mk_opresult(val))
+
+    lb, ub, st = bound(sh["lb"], lbv), bound(sh["ub"], ubv), bound(sh["step"], stv)
+    body = Block([], [IndexType()])
+    t = MemRefType(i32, [8], NoneAttr(), StringAttr("L1"))
+    bufs = [mk_opresult(None, t) for _ in range(4)]
+    x = IdxOp([body.args[0]])
+    ops = [x]
+    syncs = []
+    workers = []
+    for k in range(sh["stages"]):
+        if k % 2 == 0:
+            w = memref.CopyOp(bufs[k % 4], bufs[(k + 1) % 4])
+        else:
+            w = linalg.GenericOp([bufs[k % 4]], [bufs[(k + 1) % 4]])
+        workers.append(w)
+        ops.append(w)
+        if not (sh["tail"] == "no_final_sync" and k == sh["stages"] - 1):
+            s = snax.ClusterSyncOp()
+            syncs.append(s)
+            ops.append(s)
+    y = scf.YieldOp()
+    for o in ops + [y]:
+        body.add_op(o)
+    loop = scf.ForOp(lb, ub, st, [], body)
+    return dict(loop=loop, body=body, workers=workers, syncs=syncs, x=x, lb=lbv, ub=ubv, st=stv)
+
+
+CONSTRUCT_SHAPES = ([dict(stages=S, lb="const", ub=u, step="const", tail="ok") for S in (2, 3, 4) for u in ("const", "dyn")]
+                    + [dict(stages=3, lb=l, ub="const", step=s, tail="ok") for (l, s) in (("dyn", "const"), ("const", "dyn"))]
+                    + [dict(stages=1, lb="const", ub="const", step="const", tail="ok"), dict(stages=3, lb="const", ub="const", step="const", tail="no_final_sync")])
+
+
+@contract
+class ConstructPipeline_contract:
+    """a loop becomes a pipeline only if the unrolled form is valid for it: iterations counted from 0 in steps of 1
+    (constant lb == 0, step == 1), at least (stages - 1) iterations when the trip count is known, two or more
+    barrier-terminated stages; the body is split into one index op and one stage per barrier, barriers erased"""
+    target = "snaxc.transforms.pipeline.construct_pipeline.ConstructPipeline.match_and_rewrite"
+    shapes = CONSTRUCT_SHAPES
+    native = False
+    total = True
+    permissive = True
+    compare_ret = False
+
+    def args(sh, sym):
+        return [build_for(sh, sym)]
+
+    def run(sh, a):
+        v = a[0]
+        rw = PatternRewriter(v["loop"])
+        cp.ConstructPipeline().match_and_rewrite(v["loop"], rw)
+        return rw.log
+
+    def ensures(sh, a, ret):
+        v = a[0]
+        S = sh["stages"]
+        made = [o for e in ret if e[0] == "insert_op" for o in e[1] if isinstance(o, pipeline.PipelineOp)]
+        if len(made) == 0:
+            check("a loop is only left alone for a reason: bounds not of the supported form, too few iterations, fewer than two stages, or a body not ending in a barrier",
+                  sh["lb"] != "const" or sh["step"] != "const" or S < 2 or sh["tail"] != "ok" or v["lb"] != 0 or v["st"] != 1
+                  or (sh["ub"] == "const" and v["ub"] < S - 1))
+            check("nothing else is touched then", len(ret) == 0)
+            return
+        check("only loops counting from a CONSTANT 0 in steps of a CONSTANT 1 are pipelined (the unrolled form numbers iterations 0, 1, 2, ...)",
+              sh["lb"] == "const" and sh["step"] == "const" and v["lb"] == 0 and v["st"] == 1)
+        check("a loop whose known trip count is smaller than (stages - 1) is not pipelined (prologue and epilogue would run iterations that do not exist)",
+              sh["ub"] != "const" or v["ub"] >= S - 1)
+        check("two or more stages, each closed by a barrier", S >= 2 and sh["tail"] == "ok")
+        pipe = made[0]
+        inner = [o for e in ret if e[0] == "insert_op" and e[2].kind == "at_end" and e[2].anchor is pipe.body.block for o in e[1]]
+        check("the pipeline holds one index op followed by one stage per barrier-terminated group, numbered in order",
+              len(inner) == S + 1 and isinstance(inner[0], pipeline.IndexOp) and all(isinstance(inner[k + 1], pipeline.StageOp) and inner[k + 1].index.value.data == k for k in range(S)))
+        check("the index op wraps the index computations of the body and takes the loop index", inner[0].operands[0] is v["body"].args[0]
+              and any(o is v["x"] for o in inner[0].body.block.ops))
+        check("stage k holds the k-th worker op", all(any(o is v["workers"][k] for o in inner[k + 1].body.block.ops) for k in range(S)))
+        check("the barriers of the original body are erased (the unrolled form brings its own)",
+              all(any(e[0] == "erase_op" and e[1] is s for e in ret) for s in v["syncs"]))
+
+    def canary(sh, a, ret):
+        check("canary: no loop is ever pipelined", not any(isinstance(o, pipeline.PipelineOp) for e in ret if e[0] == "insert_op" for o in e[1]))
